@@ -78,4 +78,24 @@ theorem c19_first_poll (boot t : Nat) : Tracks boot t (({} : Uptime).poll (cnt b
 example : let u := (({} : Uptime).poll 4294966296).1
     (u.poll 500).2 = 4294966296 + 1500 - 1 := by decide
 
+/-! ### the two ways to write "d microseconds have passed" -/
+
+/-- `t - last >= d` in unsigned arithmetic -/
+def dueSub (last t d : Nat) : Bool := decide (subw t last ≥ d)
+/-- `t >= last + d` with the sum taken in 32 bits -/
+def dueCmp (last t d : Nat) : Bool := decide (t ≥ (last + d) % W32)
+
+/-- **C19.3a (the subtracting form means elapsed time)** for every boot value and every pair of instants less than 2^32 us
+    apart, `t - last >= d` holds exactly when d microseconds have really passed -/
+theorem c19_due_by_subtraction (boot t0 e d : Nat) (he : e < W32) :
+    dueSub (cnt boot t0) (cnt boot (t0 + e)) d = decide (e ≥ d) := by
+  unfold dueSub; rw [c19_subw_exact boot t0 e he]
+
+/-- **C19.3b (the comparing form does not)** `t >= last + d` depends on where the wrap falls: with a stamp 100 ms before the
+    wrap and 10 ms elapsed it already reports that 200 ms have passed, while with the stamp elsewhere it does not -/
+theorem c19_due_by_comparison_is_boot_dependent :
+    dueCmp (cnt (W32 - 100000) 0) (cnt (W32 - 100000) 10000) 200000 = true ∧
+    dueCmp (cnt 777 0) (cnt 777 10000) 200000 = false ∧
+    dueSub (cnt (W32 - 100000) 0) (cnt (W32 - 100000) 10000) 200000 = false := by decide
+
 end SuplaVerif.C19
